@@ -28,7 +28,7 @@ from .. import engine, tlc
 LEVEL = 'fault_enumeration'
 SPEC = os.path.join(engine.VERIF, 'specs', 'commitpipeline')
 KINDS = ['evm', 'call', 'kv', 'admin', 'empty']
-TIMEOUT_COMMIT_MS = 600
+TIMEOUT_COMMIT_MS = 800
 
 
 class Flaky(Exception):
@@ -53,7 +53,7 @@ def free_ports(n):
 
 def drv(args, timeout=120):
     p = subprocess.run([bin_path('crashdrv')] + [str(a) for a in args], stdout=subprocess.PIPE, stderr=subprocess.PIPE,
-                       text=True, timeout=timeout, env=engine.GOENV)
+                       text=True, timeout=timeout, env=dict(engine.GOENV, GOMAXPROCS='2'))
     if p.returncode != 0:
         raise Flaky('crashdrv %s rc=%d: %s' % (args[0], p.returncode, (p.stderr or p.stdout)[-1500:]))
     try:
@@ -140,6 +140,7 @@ class Node:
         self.rpc = None
         self.dlog = None
         self.run_no = 0
+        self._log = {'off': 0, 'ev': [], 'crash': None}
 
     def configure(self):
         p2p, rpc = free_ports(2)
@@ -158,7 +159,8 @@ class Node:
         self.dlog = os.path.join(self.work, 'dur-%d.log' % self.run_no)
         if os.path.exists(self.dlog):
             os.unlink(self.dlog)
-        env = dict(os.environ, VERIF_DURABLE_LOG=self.dlog)
+        self._log = {'off': 0, 'ev': [], 'crash': None}
+        env = dict(os.environ, VERIF_DURABLE_LOG=self.dlog, GOMAXPROCS='2')
         for k in ('VERIF_CRASH_AT', 'VERIF_CRASH_MARK', 'VERIF_CRASH_SITE'):
             env.pop(k, None)
         if crash_at:
@@ -201,7 +203,30 @@ class Node:
             self.kill()
 
     def events(self):
-        return read_dlog(self.dlog)
+        """Incremental read of the durable-write log of the current run -> ([(n, site, key)], crash)."""
+        st = self._log
+        try:
+            with open(self.dlog, 'rb') as f:
+                f.seek(st['off'])
+                data = f.read()
+        except FileNotFoundError:
+            return list(st['ev']), st['crash']
+        nl = data.rfind(b'\n')
+        if nl >= 0:
+            st['off'] += nl + 1
+            for line in data[:nl].decode('latin1').split('\n'):
+                p = line.split(' ')
+                if p[0] == 'CRASH':
+                    st['crash'] = (int(p[2]), p[3])
+                elif len(p) >= 2 and p[0].isdigit():
+                    key = b''
+                    if len(p) > 2 and p[2]:
+                        try:
+                            key = binascii.unhexlify(p[2])
+                        except Exception:
+                            key = b'?'
+                    st['ev'].append((int(p[0]), p[1], key))
+        return list(st['ev']), st['crash']
 
     def status_height(self):
         try:
@@ -229,7 +254,7 @@ class Node:
                 return ev
             if not self.alive():
                 raise NodeDied('node exited rc=%s while waiting for a commit' % self.proc.returncode)
-            time.sleep(0.02)
+            time.sleep(0.03)
         raise Flaky('no quiescent point within %.0fs' % timeout)
 
 
@@ -663,3 +688,342 @@ def judge(script, ki, pre, live, off):
             if rp.get(a) != st.get(bname):
                 f.append(('replay-' + a, 'fresh re-execution ends with %s %s, recovered node has %s' % (a, rp.get(a), st.get(bname))))
     return f
+
+
+# ---------------------------------------------------------------------------------------------
+# (T) trace validation with TLC
+
+def build_trace(ref, kv_heights, val_heights=()):
+    out = []
+    for i in sorted(ref.trace):
+        if out:
+            out.append({'ev': 'Restart', 'h': 0})
+        for e in ref.trace[i]:
+            out.append({'ev': e['ev'], 'h': e.get('h', 0)})
+    for e in out:
+        e['kvh'] = sorted(kv_heights)
+        e['valh'] = sorted(val_heights)
+    return out
+
+
+def validate_trace(ctx, events, name='trace', timeout=600):
+    """-> (accepted, rejected_index or None, TLCResult)"""
+    d = tempfile.mkdtemp(prefix='c6t')
+    try:
+        with open(os.path.join(d, 'trace.ndjson'), 'w') as f:
+            for e in events:
+                f.write(json.dumps(e) + '\n')
+        r = tlc.run([SPEC, d], 'Trace_CommitPipeline.tla', 'Trace_CommitPipeline.cfg', workers=1, timeout=timeout)
+    finally:
+        shutil.rmtree(d, ignore_errors=True)
+    ctx.cov['tlc_runs'].append(dict(r.summary(), name='CommitPipeline/' + name, exhaustive=False, events=len(events)))
+    m = re.search(r'TRACE-REJECTED-AT",\s*(\d+)', r.out)
+    if m:
+        return False, int(m.group(1)), r
+    if r.violation:
+        return False, None, r
+    if r.ok and 'Accepted' not in (r.error or ''):
+        return True, None, r
+    return False, None, r
+
+
+# ---------------------------------------------------------------------------------------------
+# the check
+
+def base_label(l):
+    return re.sub(r'#\d+$', '', l)
+
+
+COMMIT_FROM = 'gldb.Set:H'
+
+
+def plan(ctx, ref, quick):
+    """[(kind index, k, j)] crash points to run."""
+    rng = ctx.rng
+    jobs = []
+    nk = len(ref.script['batches'])
+    if quick:
+        full_kind = rng.randrange(nk - 1)          # one non-empty kind gets its whole commit section
+        for ki in range(nk):
+            labels = ref.labels[ki]
+            first_commit = labels.index(COMMIT_FROM) if COMMIT_FROM in labels else len(labels)
+            if ki == full_kind:
+                ks = set(range(first_commit + 1, len(labels) + 1))
+                ks |= set(rng.sample(range(1, first_commit + 1), min(3, first_commit)))
+            else:
+                by_site = {}
+                for k, l in enumerate(labels, 1):
+                    by_site.setdefault(base_label(l), []).append(k)
+                sites = sorted(by_site)
+                rng.shuffle(sites)
+                ks = {rng.choice(by_site[s]) for s in sites[:4]}
+            jobs += [(ki, k, 0) for k in sorted(ks)]
+        for _ in range(3):                         # a few nested crashes
+            ki = rng.randrange(nk)
+            jobs.append((ki, rng.randrange(len(ref.labels[ki]) - 16, len(ref.labels[ki]) + 1), rng.randrange(1, 25)))
+    else:
+        for ki in range(nk):
+            n = len(ref.labels[ki])
+            for k in range(1, n + 1):
+                jobs.append((ki, k, 0))
+                jobs.append((ki, k, 1 + (k * 7 + ki * 3 + ctx.seed) % 36))
+    return jobs
+
+
+def run_job(ref, base, idx, job, attempts=3):
+    ki, k, j = job
+    last = None
+    for a in range(attempts):
+        try:
+            return crash_job(ref, ki, k, j, os.path.join(base, 'j%d_%d' % (idx, a)))
+        except (Flaky, NodeDied, subprocess.TimeoutExpired, OSError) as e:
+            last = e
+            time.sleep(0.5 + a)
+    return {'ki': ki, 'k': k, 'j': j, 'flaky': str(last)[:400], 'failures': []}
+
+
+def failure_key(res, what):
+    key = 'crash-before:%s' % res.get('label')
+    if res.get('j'):
+        key += '+recovery-crash-before:%s' % (res.get('label2') or 'none')
+    return key + ':' + what
+
+
+def selftest_judge(ctx, ref, good):
+    """Binding self-test: the same observations with ONE fact falsified must be rejected by the judge."""
+    script, ki, pre, live, off = good
+    bad = 0
+    muts = []
+    o = json.loads(json.dumps(off)); o['state']['height'] -= 1; muts.append(('heights', pre, live, o))
+    o = json.loads(json.dumps(off)); o['nonces'] = dict(o.get('nonces') or {}, A=(o.get('nonces') or {}).get('A', 0) + 1); muts.append(('nonce', pre, live, o))
+    o = json.loads(json.dumps(off)); o['replay'] = {'ok': False, 'fail_height': 2, 'err': 'selftest'}; muts.append(('replay', pre, live, o))
+    p = json.loads(json.dumps(pre))
+    if p and p[0].get('blocks'):
+        p[0]['blocks'][0]['hash'] = '00' * 20
+        muts.append(('block-changed', p, live, off))
+    for what, p_, l_, o_ in muts:
+        got = [w for w, _ in judge(script, ki, p_, l_, o_)]
+        if what not in got:
+            bad += 1
+            ctx.inconclusive.append('binding self-test: falsified observation %r was not rejected (%s)' % (what, got))
+    return len(muts) - bad, len(muts)
+
+
+def run(ctx, replay=None):
+    engine.build_go(ctx, ['crashnode', 'crashdrv'])
+    quick = ctx.tier == 'quick'
+    base = tempfile.mkdtemp(prefix='c6', dir='/tmp')
+    try:
+        if replay is not None:
+            return run_replay(ctx, replay, base)
+        return run_full(ctx, quick, base)
+    finally:
+        shutil.rmtree(base, ignore_errors=True)
+        for d in os.listdir('/tmp'):
+            if d.startswith('c06-replay-'):
+                shutil.rmtree(os.path.join('/tmp', d), ignore_errors=True)
+
+
+def make_reference(ctx, base, seed):
+    last = None
+    for a in range(3):
+        d = os.path.join(base, 'r%d' % a)
+        os.makedirs(d)
+        try:
+            ref = Reference(ctx, d, seed).run()
+        except (Flaky, NodeDied) as e:
+            last = e
+            continue
+        rounds = max(sum(1 for l in ref.labels[i] if l.startswith('WriteFileAtomic.rename')) for i in ref.labels)
+        ref.canonical = rounds <= 3
+        if ref.canonical or a == 2:
+            return ref
+    raise engine.Inconclusive('reference run failed 3 times: %s' % last)
+
+
+def run_replay(ctx, replay, base):
+    t = replay['trace']
+    ref = make_reference(ctx, base, t.get('seed', ctx.seed))
+    res = run_job(ref, base, 0, (t['ki'], t['k'], t.get('j', 0)))
+    ctx.cov['evaluations'] = 1
+    ctx.cov['traces_validated_against_impl'] = 1
+    ctx.cov['states'] = ctx.cov['transitions'] = 1
+    ctx.sample({'replayed': t, 'label': res.get('label'), 'failures': [w for w, _ in res['failures']]})
+    if res.get('flaky'):
+        ctx.inconclusive.append('replay could not be driven: %s' % res['flaky'])
+    for what, detail in res['failures']:
+        ctx.failures.append({'key': failure_key(res, what), 'property': True, 'kind': what, 'detail': detail[:4000],
+                             'action': 'crash kind=%s k=%s j=%s' % (res.get('kind'), res.get('k'), res.get('j')), 'step': res.get('k'),
+                             'engine': 'c06', 'replay': {'engine': 'c06', 'args': [], 'trace': t}})
+
+
+def run_full(ctx, quick, base):
+    pool = ThreadPoolExecutor(max_workers=10)
+    # (a) the specification, exhaustively
+    cfgs = [('q', 'MC_CommitPipeline_q.cfg', None)] if quick else \
+           [('q', 'MC_CommitPipeline_q.cfg', None), ('t', 'MC_CommitPipeline_t.cfg', None)]
+    neg = [('legacy', 'MC_CommitPipeline_legacy.cfg', 'pre-repair recovery'), ('kvdup', 'MC_CommitPipeline_kvdup.cfg', 'pre-repair kv history'),
+           ('valswap', 'MC_CommitPipeline_valswap.cfg', 'pre-repair LoadIntermediate')]
+    cfgs += [neg[ctx.seed % 3]] if quick else neg
+    tlc_f = {n: pool.submit(tlc.run, SPEC, 'MC_CommitPipeline.tla', c, workers=4 if n == 't' else 2, timeout=1500)
+             for n, c, _ in cfgs}
+
+    # (b) reference run
+    ref = make_reference(ctx, base, ctx.seed)
+    K = {ref.script['batches'][i]['kind']: len(ref.labels[i]) for i in ref.labels}
+    ctx.log('reference run: durable writes per block kind %s' % K)
+    fo = ref.final_off
+    kv_heights = [b['height'] for b in fo.get('blocks') or []
+                  if any(t['type'] == 'kv' for _, t in included_txs(ref.script, [b])[0])]
+    val_heights = [b['height'] for b in fo.get('blocks') or []
+                   if any(t['type'] == 'admin' for _, t in included_txs(ref.script, [b])[0])]
+    seq, count = included_txs(ref.script, fo.get('blocks') or [])
+    all_tx = [t for b in ref.script['batches'] for t in b['txs']]
+    if any(count.get(t['hash'], 0) != 1 for t in all_tx) or not (fo.get('replay') or {}).get('ok'):
+        ref_fail = judge(ref.script, len(ref.script['batches']), [], {'blocks': fo.get('blocks'), 'nonces': fo.get('nonces'),
+                         'counter': fo.get('counter'), 'kv': fo.get('kv'), 'receipts': fo.get('receipts')}, fo)
+        raise engine.Inconclusive('the UNCRASHED reference run is not clean (%s); nothing can be concluded about crashes'
+                                  % [w for w, _ in ref_fail][:5])
+
+    # (T) the uncrashed durable-write sequence is a behaviour of the spec
+    trace = build_trace(ref, kv_heights, val_heights)
+    t_f = pool.submit(validate_trace, ctx, trace, 'trace')
+    swapped = list(trace)
+    ks = max(i for i, e in enumerate(swapped) if e['ev'] == 'gldb.SetSync:lastblock' and i + 1 < len(swapped))
+    swapped[ks], swapped[ks + 1] = swapped[ks + 1], swapped[ks]
+    ts_f = pool.submit(validate_trace, ctx, swapped, 'trace-selftest(lastblock/stateKey swapped)')
+
+    # (b) crash points
+    jobs = plan(ctx, ref, quick)
+    ctx.log('%d crash jobs (%s)' % (len(jobs), 'sample' if quick else 'every write of every kind, each also with a second crash during recovery'))
+    workers = 8
+    results = []
+    with ThreadPoolExecutor(max_workers=workers) as ex:
+        futs = [ex.submit(run_job, ref, base, n, job) for n, job in enumerate(jobs)]
+        for n, f in enumerate(futs):
+            results.append(f.result())
+            if (n + 1) % 40 == 0:
+                ctx.log('  %d/%d crash jobs done' % (n + 1, len(jobs)))
+
+    hit, flaky, walls = set(), 0, []
+    for res in results:
+        if res.get('flaky'):
+            flaky += 1
+            ctx.inconclusive.append('crash point kind=%s k=%s j=%s could not be driven: %s' % (res.get('ki'), res['k'], res['j'], res['flaky']))
+            continue
+        hit.add((res['kind'], res['label'], res.get('label2')))
+        if res.get('wall'):
+            walls.append(res['wall'])
+        for what, detail in res['failures']:
+            ctx.failures.append({'key': failure_key(res, what), 'property': True, 'kind': what,
+                                 'detail': 'block kind %s, killed before durable write %d (%s)%s: %s' % (
+                                     res['kind'], res['k'], res['label'],
+                                     ', killed again before write %d of the recovery (%s)' % (res['j'], res.get('label2')) if res['j'] else '',
+                                     detail[:3500]),
+                                 'action': 'crash kind=%s k=%d j=%d' % (res['kind'], res['k'], res['j']), 'step': res['k'], 'engine': 'c06',
+                                 'replay': {'engine': 'c06', 'args': [], 'trace': {'ki': res['ki'], 'k': res['k'], 'j': res['j'],
+                                                                                    'seed': ctx.seed, 'label': res['label']}}})
+    # binding self-test on real observations: one extra job whose observations are kept
+    good = None
+    try:
+        good = crash_job_keep(ref, base)
+    except (Flaky, NodeDied) as e:
+        ctx.inconclusive.append('binding self-test could not be driven: %s' % e)
+    if good is not None:
+        ok, n = selftest_judge(ctx, ref, good)
+        ctx.cov['binding_selftest'] = 'rejected %d/%d falsified observations' % (ok, n)
+
+    # collect TLC
+    for n, c, expect in cfgs:
+        r = tlc_f[n].result()
+        if expect is None:
+            ctx.add_tlc('CommitPipeline/' + n, r)
+            ctx.log('TLC %s: %s' % (n, r.summary()))
+            if r.violation:
+                ctx.inconclusive.append('spec invariant %s violated in config %s (specification defect, not a verdict about the code)' % (r.violation, n))
+        else:
+            ctx.cov['tlc_runs'].append(dict(r.summary(), name='CommitPipeline/%s (%s: a violation is EXPECTED)' % (n, expect), exhaustive=False))
+            ctx.log('TLC %s (expected violation): %s' % (n, r.violation))
+            if not r.violation:
+                ctx.inconclusive.append('spec self-test: the model of the %s does not violate the properties any more' % expect)
+    okT, at, rT = t_f.result()
+    ctx.log('trace validation: %s (%d events) %s' % ('accepted' if okT else 'REJECTED', len(trace), rT.summary()))
+    ctx.cov['trace_events_validated'] = len(trace) if okT else 0
+    if not okT:
+        if at is not None and 1 <= at <= len(trace):
+            e = trace[at - 1]
+            commit_ev = e['ev'].startswith(('Bs', 'gldb', 'ethdb'))
+            if not ref.canonical and not commit_ev:
+                ctx.notes.append('trace validation skipped: the reference run needed more than one consensus round (event %d %s)' % (at, e['ev']))
+            else:
+                ctx.failures.append({'key': 'write-order:%s' % e['ev'], 'property': commit_ev, 'kind': 'trace',
+                                     'detail': 'the durable-write sequence of the UNCRASHED node is not a behaviour of CommitPipeline.tla: '
+                                               'event %d (%s, height %s) cannot happen here; preceding events: %s'
+                                               % (at, e['ev'], e['h'], [x['ev'] for x in trace[max(0, at - 6):at - 1]]),
+                                     'action': 'trace', 'step': at, 'engine': 'c06',
+                                     'replay': {'engine': 'c06', 'args': [], 'trace': None}})
+        else:
+            ctx.inconclusive.append('trace validation did not finish: %s' % (rT.violation or rT.error or 'timeout')[:300])
+    okS, atS, rS = ts_f.result()
+    ctx.cov['trace_selftest'] = 'rejected' if not okS and atS else 'ACCEPTED'
+    if okS or not atS:
+        ctx.inconclusive.append('trace self-test: a log with lastblock/stateKey swapped was not rejected')
+
+    ctx.cov['exhaustive'] = True
+    ctx.cov['traces_validated_against_impl'] = len(results) - flaky
+    ctx.cov['evaluations'] = len(results) - flaky
+    ctx.cov['distinct_nontrivial'] = len(hit)
+    ctx.cov['rule'] = ('one evaluation = one real node subprocess killed (exit 137 inside the failpoint) immediately before a chosen durable '
+                       'write, restarted and judged; distinct = distinct (block kind, write site:key class #occurrence[, second crash site]) at '
+                       'which the process actually died (read back from its own durable-write log); every such point is non-trivial (a real '
+                       'process death inside the decide/commit cycle of a block)')
+    ctx.cov['writes_per_block_kind'] = K
+    ctx.cov['crash_jobs'] = len(results)
+    ctx.cov['flaky_jobs'] = flaky
+    ctx.cov['per_point_wall_s'] = round(sum(walls) / len(walls), 1) if walls else None
+    ctx.cov['double_crash_jobs'] = sum(1 for r in results if r.get('j'))
+    for r in results[:3]:
+        ctx.sample({k: r.get(k) for k in ('kind', 'k', 'j', 'label', 'label2', 'height', 'wall')})
+    ctx.sample({'write_order_' + ref.script['batches'][2]['kind']: ref.labels[2]})
+    ctx.assumptions += ['process death only (kill -9 / os.Exit): data handed to the OS survives; power loss / torn sectors are out of scope',
+                        'single-validator node (pbft); raft mode (FSM.Apply) is not bound',
+                        'symbolic hashes in the spec; block parts <= 2, trie batches <= 2 per commit in the model',
+                        'mempool contents are volatile: transactions not yet in a committed block may be lost by a crash']
+    pool.shutdown(wait=False)
+
+
+def crash_job_keep(ref, base):
+    """One ordinary crash point (before the stateKey write of the kv block) whose observations are returned."""
+    ki = 2
+    labels = ref.labels[ki]
+    k = labels.index('gldb.SetSync:stateKey') + 1
+    script = ref.script
+    b = script['batches'][ki]
+    work = os.path.join(base, 'st')
+    rt = os.path.join(work, 'rt')
+    copy_rt(ref.snap[ki], rt)
+    node = Node(rt)
+    try:
+        mark = os.path.join(node.work, 'armed')
+        node.start(crash_at=k, mark=mark)
+        node.wait_quiescent(timeout=40)
+        submit_batch(node, b)
+        open(mark, 'w').close()
+        node.proc.wait(timeout=40)
+        if node.proc.returncode != 137:
+            raise Flaky('self-test node exited rc=%s' % node.proc.returncode)
+        pre = [drv(['offline', '-runtime', rt, '-script', ref.script_path])]
+        node.start()
+        node.wait_quiescent(timeout=60, min_commits=2)
+        live = observe_live(node, script, ref.script_path)
+        node.wait_quiescent(timeout=30, min_commits=2)
+        node.stop()
+        if not quiescent(node.events()[0]):
+            raise Flaky('self-test node not stopped at a pause')
+        off = drv(['offline', '-runtime', rt, '-script', ref.script_path, '-replay', '-port', free_ports(1)[0]], timeout=180)
+        if judge(script, ki, pre, live, off):
+            raise Flaky('self-test baseline is not clean')
+        return (script, ki, pre, live, off)
+    finally:
+        node.kill()
+        shutil.rmtree(work, ignore_errors=True)
